@@ -21,9 +21,16 @@ fn v(property: &'static str, class: impl Into<String>, message: impl Into<String
 
 const DOCUMENTED_ASSERT: &str = "Subscription identifier support is required";
 
-/// Panics other than the documented assertion.
+/// Panics other than the documented assertion. The exemption covers what the library
+/// documents: a *successful* CONNACK announcing that subscription identifiers are unavailable.
 pub fn real_panics(a: &Analysis) -> Vec<&(usize, TaskRef, String)> {
-    a.panics.iter().filter(|p| !p.2.contains(DOCUMENTED_ASSERT)).collect()
+    let documented_case = a.inbound.iter().any(|i| match &i.p.pkt {
+        Some(Packet::Connack(c)) => c.reason < 0x80 && c.props.byte(pid::SUBSCRIPTION_ID_AVAILABLE) == Some(0) && i.avail_seq.is_some(),
+        // raw (hostile) bytes may contain such a CONNACK; decide by decoding them
+        None => true,
+        _ => false,
+    });
+    a.panics.iter().filter(|p| !(p.2.contains(DOCUMENTED_ASSERT) && documented_case)).collect()
 }
 
 /// In profiles without hostile input every panic breaks the property under test.
@@ -142,23 +149,30 @@ pub fn c05(a: &Analysis) -> Vec<Violation> {
     let mut pings: Vec<&OpView> = a.ops.values().filter(|o| matches!(o.spec, OpSpec::Ping) && o.first_poll.is_some() && !locally_refused(o)).collect();
     pings.sort_by_key(|o| o.first_poll.unwrap());
     let pingresps: Vec<&InView> = a.inbound.iter().filter(|i| matches!(i.p.pkt, Some(Packet::Pingresp))).collect();
-    // The k-th PINGREQ submitted (first-poll order; a ping whose future was dropped after its
-    // first poll has still been submitted and its PINGRESP is absorbed) pairs with the k-th
-    // PINGRESP.
+    // Pairing of pings with PINGRESPs. PINGREQs appear on the wire in submission (first-poll)
+    // order. A ping whose future was dropped may or may not have been written (a library may
+    // legitimately skip a request nobody waits for), so: if every submitted ping is on the
+    // wire, ping #k pairs with PINGRESP #k exactly; otherwise a ping that follows cancelled
+    // ones is only required to wait for the earliest PINGRESP it could own.
+    let on_wire = a.pings_on_wire();
+    let all_written = on_wire >= pings.len();
+    let mut cancelled_before = 0usize;
     for (k, p) in pings.iter().enumerate() {
-        if locally_refused(p) || p.cancelled.map(|c| p.ret_seq().map(|r| c < r).unwrap_or(true)).unwrap_or(false) && p.ret_seq().is_none() {
+        let idx = if all_written { k } else { k - cancelled_before.min(k) };
+        if p.cancelled.is_some() && p.ret_seq().is_none() {
+            cancelled_before += 1;
             continue;
         }
         if let Some(rs) = p.ret_seq() {
             if p.outcome() != Some(&OpOutcome::Done) && a.ctx_gone.is_none() && !a.run_returned() {
                 out.push(v("C05", "C05/wrong-ack/ping", format!("ping op {} returned {:?}", p.idx, p.outcome())));
             }
-            match pingresps.get(k).and_then(|i| i.avail_seq) {
+            match pingresps.get(idx).and_then(|i| i.avail_seq) {
                 Some(av) if av < rs => {}
                 _ if p.outcome() == Some(&OpOutcome::Done) => out.push(v(
                     "C05",
                     "C05/ping-order",
-                    format!("ping op {} (PINGREQ #{k}) completed before PINGRESP #{k} was available", p.idx),
+                    format!("ping op {} (PINGREQ #{idx} at the earliest) completed before PINGRESP #{idx} was available", p.idx),
                 )),
                 _ => {}
             }
@@ -589,7 +603,15 @@ pub fn c09(a: &Analysis) -> Vec<Violation> {
 }
 
 pub fn c07(a: &Analysis) -> Vec<Violation> {
-    streams_check(a, "C07")
+    let mut out = streams_check(a, "C07");
+    // items that only come out when the stream is polled without a wake-up are lost to a
+    // wake-only executor
+    for sp in &a.sweep_progress {
+        if let TaskRef::Consumer(s) = sp.1 {
+            out.push(v("C07", "C07/missing-item/lost-wakeup", format!("stream {s} yielded or ended only when polled without a wake-up: {}", sp.2)));
+        }
+    }
+    out
 }
 
 /// Receive Maximum announced on connection `conn`.
@@ -1160,6 +1182,17 @@ pub fn c14(a: &Analysis, sc: &Scenario) -> Vec<Violation> {
             out.push(v("C14", format!("C14/wrong-error/{}", op_phase(a, op, gone)), format!("op {} returned {:?} after the context was dropped without having been completed", op.idx, res)));
         }
     }
+    // a task that only moves when polled without a wake-up hangs under a wake-only executor
+    for sp in &a.sweep_progress {
+        if sp.0 > gone {
+            let kind = match sp.1 {
+                TaskRef::Ctx => continue,
+                TaskRef::Op(_) => "operation",
+                TaskRef::Consumer(_) => "stream",
+            };
+            out.push(v("C14", format!("C14/hang/{kind}/needs-spurious-poll"), format!("{:?} made progress only when polled without a wake-up after the context was dropped: {}", sp.1, sp.2)));
+        }
+    }
     // streams: items delivered before the drop, then the end
     let exp = expected_items(a, true);
     for (sub, sv) in &a.streams {
@@ -1245,6 +1278,40 @@ pub fn c15(a: &Analysis, probe_from: Option<usize>) -> Vec<Violation> {
         x.class = format!("C15/survivor-disturbed/{}", x.class.trim_start_matches("C15/"));
         out.push(x);
     }
+    // a QoS 2 publish dropped AFTER it had submitted its PUBREL (it was polled after the context
+    // had handed it the PUBREC): the PUBREL is a request like any other and must still be sent,
+    // otherwise the PUBCOMP never comes and the slot is never freed
+    if a.ctx_gone.is_none() && a.fully_consumed() {
+        for op in a.ops.values() {
+            let (Some(cancel), Some(2)) = (op.cancelled, op.spec.publish_qos()) else { continue };
+            let Some(rec) = a.acks_for(op.idx).into_iter().find(|i| matches!(&i.p.pkt, Some(Packet::Pubrec(x)) if x.reason < 0x80)) else { continue };
+            // when did the context consume the PUBREC?
+            let mut consumed = 0usize;
+            let mut consumed_at = None;
+            for (seq, e) in a.events.iter().enumerate() {
+                if let Ev::Read { conn, n, .. } = e {
+                    if *conn == rec.p.conn {
+                        consumed += n;
+                        if consumed >= rec.p.end {
+                            consumed_at = Some(seq);
+                            break;
+                        }
+                    }
+                }
+            }
+            let Some(consumed_at) = consumed_at else { continue };
+            // the context finishes handling it in the same poll: find that poll's end
+            let handled_at = a.events.iter().enumerate().skip(consumed_at).find(|(_, e)| matches!(e, Ev::PollEnd { task: TaskRef::Ctx, .. })).map(|x| x.0).unwrap_or(usize::MAX);
+            let submitted = a.events.iter().enumerate().any(|(seq, e)| seq > handled_at && seq < cancel && matches!(e, Ev::PollBegin { task: TaskRef::Op(i), .. } if *i == op.idx));
+            if submitted {
+                let pid = a.op_pid.get(&op.idx).copied();
+                let sent = a.wire.iter().any(|w| matches!(&w.pkt, Packet::Pubrel(r) if Some(r.pid) == pid) && w.seq_first > consumed_at);
+                if !sent {
+                    out.push(v("C15", "C15/slot-not-freed/pubrel-not-sent", format!("op {}: dropped after it had submitted its PUBREL, which was never written", op.idx)));
+                }
+            }
+        }
+    }
     for mut x in c10(a, probe_from) {
         if x.class.starts_with("C10/leak") || x.class.starts_with("C10/overflow") {
             x.property = "C15";
@@ -1283,10 +1350,24 @@ pub fn c03(a: &Analysis, r: &Analysis) -> Vec<Violation> {
 /// C12 — `a`: the run with Maximum Packet Size M; `twin`: the same scenario without a limit.
 pub fn c12(a: &Analysis, twin: &Analysis, probe_from: Option<usize>) -> Vec<Violation> {
     let mut out = Vec::new();
-    let m: Option<usize> = a.inbound.iter().find_map(|i| match &i.p.pkt {
-        Some(Packet::Connack(c)) => c.props.u32(pid::MAXIMUM_PACKET_SIZE).map(|v| v as usize),
-        _ => None,
-    });
+    // Maximum Packet Size per connection (the latest CONNACK governs)
+    let m_of = |conn: usize| -> Option<usize> {
+        a.inbound.iter().find_map(|i| match &i.p.pkt {
+            Some(Packet::Connack(c)) if i.p.conn == conn => Some(c.props.u32(pid::MAXIMUM_PACKET_SIZE).map(|v| v as usize)),
+            _ => None,
+        }).flatten()
+    };
+    // the connection that was serving when the operation was submitted
+    let conn_of = |op: &OpView| -> Option<usize> {
+        let fp = op.first_poll?;
+        a.conns.iter().enumerate().rev().find_map(|(c, cv)| {
+            let started = cv.run_started?;
+            let ended = cv.run_returned.as_ref().map(|x| x.0).unwrap_or(usize::MAX);
+            if started < fp && fp < ended { Some(c) } else { None }
+        })
+    };
+    let single = a.conns.len() == 1;
+    let m: Option<usize> = m_of(0);
     out.extend(wire_wellformed(a, "C12").into_iter().map(|mut x| {
         x.class = "C12/partial-write".into();
         x
@@ -1309,6 +1390,9 @@ pub fn c12(a: &Analysis, twin: &Analysis, probe_from: Option<usize>) -> Vec<Viol
             _ => twin.request_of(op.idx).first().map(|p| p.len),
         };
         let Some(l) = l else { continue };
+        // which limit applies: that of the connection serving when the request was submitted
+        let Some(c) = conn_of(op) else { continue };
+        let m = m_of(c);
         let on_wire = match &op.spec {
             OpSpec::Ping => None, // pings carry no marker; judged by count below
             OpSpec::Disconnect(_) => Some(a.wire.iter().any(|p| matches!(p.pkt, Packet::Disconnect(_)))),
@@ -1336,6 +1420,9 @@ pub fn c12(a: &Analysis, twin: &Analysis, probe_from: Option<usize>) -> Vec<Viol
                 out.push(v("C12", format!("C12/refused-within-limit/{kind}/not-written"), format!("op {}: packet of {l} bytes fits but is not on the wire (outcome {:?})", op.idx, op.outcome())));
             }
         }
+    }
+    if !single {
+        return out;
     }
     // pings: every ping that fits is written, none that does not
     let pings = a.ops.values().filter(|o| matches!(o.spec, OpSpec::Ping) && o.first_poll.is_some()).count();
@@ -1447,21 +1534,14 @@ fn session_expiry(a: &Analysis, c: usize) -> u64 {
 
 pub fn c17(a: &Analysis, sc: &Scenario) -> Vec<Violation> {
     let mut out = Vec::new();
-    // (connection index, elapsed seconds) of every resume
-    let mut resumes: Vec<(usize, u64)> = Vec::new();
-    let mut conn_no = 0usize;
-    for s in &sc.steps {
-        match s {
-            Step::Start { .. } => {}
-            Step::Reconnect { elapsed, .. } => {
-                conn_no += 1;
-                if conn_no < a.conns.len() {
-                    resumes.push((conn_no, *elapsed));
-                }
-            }
-            _ => {}
-        }
-    }
+    // (connection index, elapsed seconds) of every resume that actually took place
+    let _ = sc;
+    let resumes: Vec<(usize, u64)> = a
+        .events
+        .iter()
+        .filter_map(|e| if let Ev::Resumed { conn, elapsed } = e { Some((*conn, *elapsed)) } else { None })
+        .filter(|(c, _)| *c >= 1 && *c < a.conns.len())
+        .collect();
     for p in real_panics(a) {
         out.push(v("C17", format!("C17/panic/{}", panic_site(&p.2)), format!("{:?} panicked: {}", p.1, p.2)));
     }
